@@ -351,6 +351,19 @@ def case_bulk_glue(ctx, nf, nd):
             for j in range(nd):
                 ctx.check(ctx.eq(imb[p, i, j], Rg[p, i, j] + Rd[p, i, j] - dE[p, i, j]), "D-IMB",
                           info="imbalance == generation + dissipation - dE/dt")
+    # the same rate of change stored direction-major (dims time, direction, frequency): the subtraction is by
+    # dimension name, not by position
+    ds_dm = create_2d_spectrum(s.frequency.values, s.direction.values, np.transpose(dE, (0, 2, 1)).copy(), s.time.values,
+                               s.latitude.values, s.longitude.values, depth=depth, dims=("time", "direction", "frequency"))
+    calls.clear()
+    imb2 = ctx.noraise("D-IMB.layout", bal.evaluate_imbalance, U, Dr, s, ds_dm)
+    imb2 = imb2.transpose("time", "frequency", "direction") if hasattr(imb2, "transpose") else imb2
+    imb2 = np.asarray(imb2.values)
+    for p in range(npts):
+        for i in range(nf):
+            for j in range(nd):
+                ctx.check(ctx.eq(imb2[p, i, j], Rg[p, i, j] + Rd[p, i, j] - dE[p, i, j]), "D-IMB.layout",
+                          info="imbalance with a direction-major rate-of-change spectrum")
     calls.clear()
     bimb = np.asarray(bal.evaluate_bulk_imbalance(U, Dr, s, ds).values)
     m0 = C.values(ds.m0())
